@@ -2,3 +2,4 @@ import RaftWal.Props.C13
 #print axioms RaftWal.C13.dir_exact
 #print axioms RaftWal.C13.ids_never_reused
 #print axioms RaftWal.C13.create_never_collides
+#print axioms RaftWal.C13.recovered_dir_exact_any_crash
